@@ -71,6 +71,30 @@ def run(ctx, b, broken):
                         su.corr(text, impl_parse(text, src), filename=src, tag="preprocessed fake headers")
             if len(ctx.samples) < 3:
                 ctx.sample({"header": h, "dialects": dialects})
+        # "identical to preprocessing and parsing by hand" with the file named by a RELATIVE path, cpp run by this harness (not through
+        # preprocess_file): same tree, same coordinates (the file names in the linemarkers are what cpp was given)
+        import subprocess as _sp
+        cwd0 = os.getcwd()
+        try:
+            os.chdir(tmp)
+            for h in [x for x in headers if x in ("stdio.h", "stdlib.h", "string.h", "stdint.h", "assert.h", "sys/types.h")] + headers[:4]:
+                rel = "t_" + h.replace("/", "_") + ".c"
+                for relname in (rel, "./" + rel):
+                    ctx.evaluations += 1
+                    ctx.count("form:relative-path")
+                    hand = _sp.run(["cpp", "-I" + fake, relname], capture_output=True, text=True)
+                    if hand.returncode != 0:
+                        continue
+                    try:
+                        ast = pycparser.parse_file(relname, use_cpp=True, cpp_args=["-I" + fake])
+                    except Exception as e:
+                        su.violation(f"#include <{h}>", f"parse_file failed for the relative file name {relname}: {type(e).__name__}: {str(e)[:120]}")
+                        continue
+                    manual = c_parser.CParser().parse(hand.stdout, relname)
+                    if show_ast(ast, True) != show_ast(manual, True):
+                        su.violation(f"#include <{h}>", f"parse_file({relname!r}) differs (tree or coordinates) from running cpp on {relname!r} by hand and parsing its output")
+        finally:
+            os.chdir(cwd0)
         # order dependence, searched directly: a macro that header A leaves defined and that occurs as an identifier in the
         # preprocessed text of header B changes B when A comes first - every such ordered pair is tried
         import subprocess
